@@ -20,6 +20,7 @@ def r6(ctx):
 
 
 RULES = {
+    "C13.RL": lambda ctx: __import__("rules.common", fromlist=["x"]).loop_exit_rule(ctx, "C13.RL", {'builder::SourceMapBuilder::into_sourcemap': 0}),
     "C13.R1": lambda ctx: bldrules.interning(ctx, "C13.R1"),
     "C13.R2": lambda ctx: bldrules.cache_coherence(ctx, "C13.R2"),
     "C13.R2b": lambda ctx: bldrules.prefix_source(ctx, "C13.R2b"),
